@@ -169,6 +169,16 @@ def make_fn(tier, max_all=6, big_size=2):
                     allowed = [nd for nd in mpt.path(model, p) if nd.hashed and len(nd.pos) > len(q)]
                     froms.append((q, node_q, seg, trav_result(lambda: complete.traverse_from(node_q, seg)), allowed))
 
+        # a later state of the same non-pruning trie (one write further): lookups at THIS root then go through an at_root snapshot
+        later = None
+        if not prune:
+            for op, _ in muts:
+                t = mk(dict(db), root, rc)
+                apply_op(t, {}, op)
+                if t.root_hash != root:
+                    later = (t.root_hash, dict(t.db), op)
+                    break
+
         def check_exc(e, kind, key, M, fdb, allowed_hashes, want_prefix, cur_root):
             h = bytes(e.missing_node_hash)
             if h not in M or h in fdb:
@@ -240,6 +250,30 @@ def make_fn(tier, max_all=6, big_size=2):
                 self_check_traverse(o, ft, db, Mset, q + seg, want, allowed, pos_of, lambda: ft.traverse_from(node_q, seg), "traverse_from", q)
             if state_of(ft) != before:
                 o.viol("C07", "failed_call_changed_state", "lookups / traversals changed the trie", call="lookups")
+            if later is not None:
+                # the same lookups through `with later_trie.at_root(this root)`: same answers, same truthful reports, and the trie the
+                # snapshot was taken from is untouched by a lookup that failed inside the with block
+                ft2 = mk({k: v for k, v in later[1].items() if k not in Mset}, later[0], None)
+                before2 = state_of(ft2)
+                for kind, k, _, want, allowed, _ in calls:
+                    o.evals += 1
+                    try:
+                        with ft2.at_root(root) as s:
+                            got = s.get(k) if kind == "get" else s.exists(k)
+                        if got != want:
+                            o.viol("C07", "wrong_result", "a lookup through an at_root snapshot differs from the complete-database result", call=kind, key=k,
+                                   via="at_root", missing=sorted(Mset))
+                            break
+                    except MissingTrieNode as e:
+                        check_exc(e, kind, k, Mset, ft2.db, {nd.hash for nd in allowed}, lambda h: pos_of.get(h, ()), root)
+                    except Exception as e:  # noqa
+                        o.viol("C07", "other_exception", f"{kind} through an at_root snapshot raised {type(e).__name__} with node bodies absent", call=kind,
+                               key=k, via="at_root", exc=repr(e)[:160])
+                        break
+                    if state_of(ft2) != before2:
+                        o.viol("C07", "failed_call_changed_state", "a lookup inside `with trie.at_root(old_root)` changed the trie the snapshot was taken from",
+                               call=kind, key=k, via="at_root", later_op=later[2])
+                        break
             # ---------------- mutations: fresh faulty trie per call, direct and inside a batch
             for op, allowed in muts:
                 for in_batch in (False, True, 2):
